@@ -14,6 +14,11 @@
  *
  * Addresses start at 1 so that address 0 is an unmapped word below the first
  * area; every layout ends at or before address 8.
+ *
+ *   T  "top of the address space": the family once more, moved up so that the
+ *      last word of the layout is 0xffffffff (fam_enumerate_top, at the end of
+ *      this file).  Called by the harnesses separately, after their other
+ *      tables.
  */
 #ifndef VERIF_REGFAM_H
 #define VERIF_REGFAM_H
@@ -264,11 +269,179 @@ fam_contents(const struct rspec *r, uint64_t out[3])
     return n;
 }
 
-/* windows are enumerated over the ten addresses starting one below the first area */
+/* windows are enumerated over the ten addresses starting one below the first
+ * area -- or over fewer, where the address space ends before the tenth */
 static inline uint32_t
 fam_origin(const struct tspec *s)
 {
     return s->a[0].base - 1;
+}
+
+/* number of addresses the windows of a table range over: FAM_MAXADDR + 1, or
+ * the addresses from the origin up to 0xffffffff.  A window is (origin + rel,
+ * n) with rel + n <= span, so no window extends beyond 0xffffffff (ranges that
+ * wrap around are not generated). */
+static inline uint32_t
+fam_span(const struct tspec *s)
+{
+    const uint64_t left = 0x100000000ull - fam_origin(s);
+    return left < FAM_MAXADDR + 1 ? (uint32_t)left : FAM_MAXADDR + 1;
+}
+
+/* ---- T "top of the address space" ------------------------------------------------
+ * The family once more with every address moved up so that the LAST WORD OF
+ * THE LAYOUT IS 0xffffffff: the last area (and a register placed at its end)
+ * ends at 2^32, an exclusive end address that 32-bit arithmetic cannot hold.
+ *
+ *   T1 layouts A..D, all areas RW x (mem | cb) x (LE | BE) x register lists:
+ *      every single register (5 types x every placement that fits x 6
+ *      constraint kinds; the last placement ends on the last word) + ordered
+ *      non-overlapping pairs (quick: adjacent or one word apart) + the two
+ *      curated lists.
+ *   T2 the whole flag part F2 (every per-area access combination of RW / RO /
+ *      WO / RO-without-write-callback x mem | cb x the four register menus).
+ *
+ * Windows of these tables range over the addresses from one below the first
+ * area up to 0xffffffff (fam_span). */
+static inline uint32_t
+fam_last_word(const struct layout *l)
+{
+    return l->base[l->na - 1] + l->size[l->na - 1] - 1;
+}
+
+static inline bool
+fam_is_top(const struct tspec *s)
+{
+    return s->na > 0 && (uint64_t)s->a[s->na - 1].base + s->a[s->na - 1].size == 0x100000000ull;
+}
+
+static int
+fam_enumerate_top(fam_fn fn, int idx, bool thorough)
+{
+    struct tspec s;
+    static const int RW3[3] = { 0, 0, 0 };
+    static const int ACC3[10][3] = {
+        { 0, 1, 0 }, { 1, 0, 0 }, { 0, 0, 1 }, { 2, 0, 0 }, { 0, 2, 0 },
+        { 0, 0, 2 }, { 3, 0, 0 }, { 0, 3, 0 }, { 1, 2, 3 }, { 2, 1, 0 },
+    };
+    /* ---- T1 ---- */
+    for (int li = 0; li < NLAYOUTS; ++li) {
+        const struct layout *l = &LAYOUTS[li];
+        fam_shift = 0xffffffffu - fam_last_word(l);
+        for (int combo = 0; combo < 4; ++combo) {
+            const int backing = combo >> 1; /* 0 mem, 1 cb */
+            const bool be = (combo & 1);
+            for (unsigned ti = 0; ti < 5; ++ti)
+                for (uint32_t a = 1; a <= 8; ++a) {
+                    if (!fam_fits(l, FAM_TYPES1[ti], a))
+                        continue;
+                    for (int ck = 0; ck < K_NKINDS; ++ck) {
+                        memset(&s, 0, sizeof s);
+                        s.be = be;
+                        fam_areas(&s, l, RW3, backing);
+                        s.nr = 1;
+                        s.r[0].type = FAM_TYPES1[ti];
+                        s.r[0].addr = a + fam_shift;
+                        fam_constrain(&s.r[0], ck);
+                        fn(&s, idx++);
+                    }
+                }
+            int rot = 0;
+            for (unsigned t1 = 0; t1 < 4; ++t1)
+                for (uint32_t a1 = 1; a1 <= 8; ++a1) {
+                    if (!fam_fits(l, FAM_TYPES2[t1], a1))
+                        continue;
+                    for (unsigned t2 = 0; t2 < 4; ++t2)
+                        for (uint32_t a2 = a1 + ref_words(FAM_TYPES2[t1]); a2 <= 8; ++a2) {
+                            if (!fam_fits(l, FAM_TYPES2[t2], a2))
+                                continue;
+                            if (!thorough && a2 > a1 + ref_words(FAM_TYPES2[t1]) + 1)
+                                continue;
+                            memset(&s, 0, sizeof s);
+                            s.be = be;
+                            fam_areas(&s, l, RW3, backing);
+                            s.nr = 2;
+                            s.r[0].type = FAM_TYPES2[t1];
+                            s.r[0].addr = a1 + fam_shift;
+                            fam_constrain(&s.r[0], 2 + (rot % 4));
+                            s.r[1].type = FAM_TYPES2[t2];
+                            s.r[1].addr = a2 + fam_shift;
+                            fam_constrain(&s.r[1], (rot / 4) % 6);
+                            rot++;
+                            fn(&s, idx++);
+                        }
+                }
+            for (int variant = 0; variant < 2; ++variant) {
+                memset(&s, 0, sizeof s);
+                s.be = be;
+                fam_areas(&s, l, RW3, backing);
+                uint32_t a = 1;
+                int k = 0;
+                while (a <= 8 && s.nr < RT_MAXR - 1) {
+                    RegisterType t = ((k + variant) & 1) ? REG_TYPE_UINT32 : REG_TYPE_UINT16;
+                    if (!fam_fits(l, t, a)) {
+                        t = REG_TYPE_UINT16;
+                        if (!fam_fits(l, t, a)) {
+                            a++;
+                            continue;
+                        }
+                    }
+                    s.r[s.nr].type = t;
+                    s.r[s.nr].addr = a + fam_shift;
+                    fam_constrain(&s.r[s.nr], (k + 2 * variant) % 6 == K_FAIL ? K_RANGE : (k + 2 * variant) % 6);
+                    s.nr++;
+                    a += ref_words(t);
+                    k++;
+                }
+                fn(&s, idx++);
+            }
+        }
+    }
+    /* ---- T2 ---- */
+    for (int li = 0; li < NLAYOUTS; ++li) {
+        const struct layout *l = &LAYOUTS[li];
+        fam_shift = 0xffffffffu - fam_last_word(l);
+        const int ncombo = l->na == 1 ? 4 : l->na == 2 ? 16 : 10;
+        for (int c = 0; c < ncombo; ++c) {
+            int acc[3] = { 0, 0, 0 };
+            if (l->na == 1)
+                acc[0] = c;
+            else if (l->na == 2) {
+                acc[0] = c & 3;
+                acc[1] = c >> 2;
+            } else
+                memcpy(acc, ACC3[c], sizeof acc);
+            for (int backing = 0; backing < 2; ++backing)
+                for (int rl = 0; rl < 4; ++rl) {
+                    memset(&s, 0, sizeof s);
+                    s.be = (rl & 1);
+                    fam_areas(&s, l, acc, backing);
+                    for (int i = 0; i < l->na && rl > 0; ++i) {
+                        if (rl == 1) {
+                            s.r[s.nr].type = l->size[i] >= 4 ? REG_TYPE_UINT64 : REG_TYPE_UINT32;
+                            s.r[s.nr].addr = l->base[i] + fam_shift;
+                            fam_constrain(&s.r[s.nr], K_MAX);
+                            s.nr++;
+                        } else if (rl == 2) {
+                            s.r[s.nr].type = REG_TYPE_UINT32;
+                            s.r[s.nr].addr = l->base[i] + l->size[i] - 2 + fam_shift;
+                            fam_constrain(&s.r[s.nr], K_RANGE);
+                            s.nr++;
+                        } else {
+                            for (uint32_t a = l->base[i]; a < l->base[i] + l->size[i] && s.nr < RT_MAXR; a += 2) {
+                                s.r[s.nr].type = REG_TYPE_UINT16;
+                                s.r[s.nr].addr = a + fam_shift;
+                                fam_constrain(&s.r[s.nr], (a & 2) ? K_MIN : K_NONE);
+                                s.nr++;
+                            }
+                        }
+                    }
+                    fn(&s, idx++);
+                }
+        }
+    }
+    fam_shift = 0;
+    return idx;
 }
 
 #endif /* VERIF_REGFAM_H */
